@@ -871,4 +871,384 @@ theorem within_key {B K : Nat} (hn : NoFuzzy env) {e e' : Editor D L} (hw : With
     rw [h4]; split <;> exact ⟨⟨rfl, rfl, rfl, rfl⟩, rfl⟩
   exact ⟨c1.keep e1.1, by rw [e1.2, hst]; exact c2⟩
 
+
+/-! ## the other public operations -/
+
+/-- no candidate list is open over a buffer beyond `B` (the simple engine's one-word list over a full buffer is
+    the one case where it is) -/
+def Quiet (B : Nat) (e : Editor D L) : Prop := ∀ s, e.state = .selecting s → e.shared.com.len ≤ B
+
+/-- the side conditions of the operations: new options stay within `B` and exact lookup; the calls that can close a
+    candidate list without an auto-commit (`cancel_selecting`; the `revalidate_selecting` of the option / layout /
+    learn / unlearn calls) are not made over the over-full one-word list -/
+def SafeOp (B : Nat) (e : Editor D L) : Op L → Prop
+  | .setOptions o => o.autoCommitThreshold ≤ B ∧ o.lookupStrategy = .standard ∧ Quiet B e
+  | .cancelSelecting => Quiet B e
+  | .setLayout _ => Quiet B e
+  | .learn _ _ => Quiet B e
+  | .unlearn _ _ => Quiet B e
+  | _ => True
+
+theorem within_of_state {B K : Nat} {sh : Shared D L} {st : St} (hc : Cfg B K sh) (hl : sh.com.len ≤ B) :
+    Within B K { shared := sh, state := st } :=
+  ⟨hc, Nat.le_trans hl (le_lenCap B st)⟩
+
+theorem leaveIfEmpty_within {B K : Nat} {e : Editor D L} (hw : Within B K e) : Within B K (Editor.leaveIfEmpty env e) := by
+  unfold Editor.leaveIfEmpty
+  split
+  · next hc =>
+    have hs : e.state = .enteringSyllable := by
+      have := (Bool.and_eq_true _ _).mp hc
+      exact eq_of_beq this.2
+    have hl := hw.len
+    rw [hs] at hl
+    exact ⟨hw.cfg, hl⟩
+  · exact hw
+
+theorem leaveIfEmpty_shared (e : Editor D L) : (Editor.leaveIfEmpty env e).shared = e.shared := by
+  unfold Editor.leaveIfEmpty; split <;> rfl
+
+theorem leaveIfEmpty_sel {e : Editor D L} {s : Selecting} (h : (Editor.leaveIfEmpty env e).state = .selecting s) :
+    e.state = .selecting s := by
+  unfold Editor.leaveIfEmpty at h
+  split at h
+  · cases h
+  · exact h
+
+theorem revalidate_within {B K : Nat} {e e' : Editor D L} (hw : Within B K e) (hq : Quiet B e)
+    (h : e.revalidate env = .ok e') : Within B K e' := by
+  rcases revalidate_cases env h with rfl | ⟨s, tp, hs, _, _, _, rfl⟩ | ⟨s, hs, _, rfl⟩
+  · exact hw
+  · have hl := hw.len
+    rw [hs] at hl
+    exact ⟨hw.cfg, hl⟩
+  · refine ⟨hw.cfg.keep ⟨rfl, rfl, rfl, rfl⟩, ?_⟩
+    show e.shared.com.popCursor.len ≤ B
+    rw [popCursor_len]
+    exact hq s hs
+
+/-- `Editor::select(n)` -/
+theorem within_select {B K : Nat} {e e' : Editor D L} (hw : Within B K e) {n : Nat} {b : Bool}
+    (hac : ∀ sh, Mid env e (.select n) sh → ACBound env sh) (h : e.select env n = .ok (e', b)) : Within B K e' := by
+  unfold Editor.select at h
+  split at h
+  · next s hs =>
+    split at h
+    · next s' sh0 t hq =>
+      obtain ⟨h1, h2, h3⟩ := (select_growth env s e.shared n).elim hq
+      dsimp only at h1 h2 h3
+      have ha := applyTrans_keep sh0 (.selecting s') t
+      have hm : Mid env e (.select n) (applyTrans sh0 (.selecting s') t).1 := ⟨s, s', sh0, t, hs, hq, rfl⟩
+      have hlen := hw.len
+      rw [hs] at hlen
+      simp only [lenCap] at hlen
+      have hcase : ((applyTrans sh0 (.selecting s') t).2 = .entering ∧ (applyTrans sh0 (.selecting s') t).1.last = .absorb) ∨
+          (applyTrans sh0 (.selecting s') t).1.com.len ≤ lenCap B (applyTrans sh0 (.selecting s') t).2 := by
+        rcases h3 with rfl | ⟨h3, h4⟩
+        · exact .inl ⟨rfl, rfl⟩
+        · refine .inr ?_
+          rw [ha.2]
+          cases t with
+          | spin b => show sh0.com.len ≤ B + 1; omega
+          | toState s'' =>
+            cases s'' with
+            | selecting x => show sh0.com.len ≤ B + 1; omega
+            | entering => exact absurd h4 (by simp [StaysSel])
+            | enteringSyllable => exact absurd h4 (by simp [StaysSel])
+            | highlighting m => exact absurd h4 (by simp [StaysSel])
+      dsimp only at h
+      split at h
+      · next sh2 hr =>
+        injection h with h; injection h with h5 h6
+        obtain ⟨c1, c2⟩ := tail_within env hw.cfg (h1.trans ha.1) hcase (hac _ hm) hr
+        rw [← h5]
+        exact ⟨c1, c2⟩
+      · cases h
+      · cases h
+    · cases h
+    · cases h
+  · injection h with h; injection h with h1 h2
+    rw [← h1]; exact hw
+
+/-- `Editor::start_selecting` -/
+theorem within_startSelecting {B K : Nat} {e e' : Editor D L} (hw : Within B K e) {b : Bool}
+    (h : e.startSelecting env = .ok (e', b)) : Within B K e' := by
+  unfold Editor.startSelecting at h
+  dsimp only at h
+  split at h
+  · next sh t hr =>
+    injection h with h; injection h with h1 h2
+    rw [← h1]
+    apply leaveIfEmpty_within
+    have ha := applyTrans_keep sh e.state t
+    have hlen := hw.len
+    split at hr
+    · next hs =>
+      obtain ⟨g1, g2, _⟩ := gstep_startSelecting env (K := 0) e.shared sh t hr
+      rw [hs] at hlen
+      refine ⟨hw.cfg.keep (g1.trans ha.1), ?_⟩
+      show (applyTrans sh e.state t).1.com.len ≤ lenCap B (applyTrans sh e.state t).2
+      rw [ha.2]
+      simp only [lenCap] at hlen
+      exact Nat.le_trans (by omega) (le_lenCap B _)
+    · next hs =>
+      obtain ⟨g1, g2, _⟩ := gstep_startSelecting env (K := 0) { e.shared with syl := env.clearSyl e.shared.syl } sh t hr
+      rw [hs] at hlen
+      refine ⟨hw.cfg.keep (Keep.trans ⟨rfl, rfl, rfl, rfl⟩ (g1.trans ha.1)), ?_⟩
+      show (applyTrans sh e.state t).1.com.len ≤ lenCap B (applyTrans sh e.state t).2
+      rw [ha.2]
+      simp only [lenCap] at hlen
+      have g2' : sh.com.len ≤ e.shared.com.len + 0 := g2
+      exact Nat.le_trans (by omega) (le_lenCap B _)
+    · injection hr with hr; injection hr with h3 h4
+      subst h3 h4
+      exact ⟨hw.cfg.keep ⟨rfl, rfl, rfl, rfl⟩, hlen⟩
+  · cases h
+  · cases h
+
+/-- the `jump_to_*_selection_point` calls -/
+theorem within_jump {B K : Nat} {e e' : Editor D L} (hw : Within B K e) {which : Nat} {b : Bool}
+    (h : e.jump env which = .ok (e', b)) : Within B K e' := by
+  have key : e'.shared = e.shared ∧ (e'.state = e.state ∨ ∃ s s', e.state = .selecting s ∧ e'.state = .selecting s') := by
+    unfold Editor.jump at h
+    repeat' (first | split at h | (dsimp only at h; split at h))
+    all_goals first
+      | (injection h with h; injection h with h1 h2; subst h1
+         first
+          | exact ⟨rfl, .inl rfl⟩
+          | exact ⟨rfl, .inr ⟨_, _, ‹_›, rfl⟩⟩)
+      | cases h
+  obtain ⟨h1, h2⟩ := key
+  have hlen := hw.len
+  refine ⟨by rw [h1]; exact hw.cfg, ?_⟩
+  rw [h1]
+  rcases h2 with h2 | ⟨s, s', hs, hs'⟩
+  · rw [h2]; exact hlen
+  · rw [hs] at hlen; rw [hs']; exact hlen
+
+/-- **every public operation keeps the invariant** — under the side conditions `SafeOp`, with the auto-commit's
+    own bound at the state(s) it runs in -/
+theorem within_apply {B K : Nat} (hn : NoFuzzy env) {e e' : Editor D L} (hw : Within B K e) (op : Op L)
+    (hs : SafeOp B e op) (hac : ∀ sh, Mid env e op sh → ACBound env sh) (h : e.apply env op = .ok e') :
+    Within B K e' := by
+  cases op with
+  | key ev =>
+    simp only [Editor.apply] at h
+    obtain ⟨⟨e1, b⟩, h1, h2⟩ := map_ok h
+    subst h2
+    exact within_key env hn hw hac h1
+  | select n =>
+    simp only [Editor.apply] at h
+    obtain ⟨⟨e1, b⟩, h1, h2⟩ := map_ok h
+    subst h2
+    exact within_select env hw hac h1
+  | startSelecting =>
+    simp only [Editor.apply] at h
+    obtain ⟨⟨e1, b⟩, h1, h2⟩ := map_ok h
+    subst h2
+    exact within_startSelecting env hw h1
+  | cancelSelecting =>
+    simp only [Editor.apply] at h
+    injection h with h; subst h
+    unfold Editor.cancelSelecting
+    split
+    · next s hst =>
+      refine ⟨hw.cfg.keep ⟨rfl, rfl, rfl, rfl⟩, ?_⟩
+      show e.shared.com.popCursor.len ≤ B
+      rw [popCursor_len]
+      exact hs s hst
+    · exact hw
+  | commit =>
+    simp only [Editor.apply] at h
+    obtain ⟨⟨e1, b⟩, h1, h2⟩ := map_ok h
+    subst h2
+    unfold Editor.commit at h1
+    split at h1
+    · injection h1 with h1; injection h1 with h3 h4; rw [← h3]; exact hw
+    · split at h1
+      · next sh hq =>
+        injection h1 with h1; injection h1 with h3 h4
+        obtain ⟨hk, hc⟩ := (commit_keep env e.shared).elim hq
+        rw [← h3]
+        refine ⟨hw.cfg.keep hk, ?_⟩
+        show sh.com.len ≤ _
+        rw [hc, clear_len]; exact Nat.zero_le _
+      · cases h1
+      · cases h1
+  | clear =>
+    simp only [Editor.apply] at h
+    injection h with h; subst h
+    refine ⟨hw.cfg.keep ⟨rfl, rfl, rfl, rfl⟩, ?_⟩
+    show e.shared.com.clear.len ≤ _
+    rw [clear_len]; exact Nat.zero_le _
+  | ack =>
+    simp only [Editor.apply] at h
+    injection h with h; subst h
+    exact ⟨hw.cfg.keep ⟨rfl, rfl, rfl, rfl⟩, hw.len⟩
+  | clearSyl =>
+    simp only [Editor.apply] at h
+    injection h with h; subst h
+    exact leaveIfEmpty_within env ⟨hw.cfg.keep ⟨rfl, rfl, rfl, rfl⟩, hw.len⟩
+  | setOptions o =>
+    simp only [Editor.apply] at h
+    obtain ⟨h1, h2, h3⟩ := hs
+    have hw1 : Within B K (e.setOptions env o) := by
+      unfold Editor.setOptions
+      dsimp only
+      apply leaveIfEmpty_within
+      split
+      · exact ⟨⟨h1, h2, hw.cfg.abbr⟩, hw.len⟩
+      · exact ⟨⟨h1, h2, hw.cfg.abbr⟩, hw.len⟩
+    have hq1 : Quiet B (e.setOptions env o) := by
+      intro s hst
+      have e1 : (e.setOptions env o).shared.com = e.shared.com := by
+        unfold Editor.setOptions
+        dsimp only
+        rw [leaveIfEmpty_shared]
+        split <;> rfl
+      have e2 : e.state = .selecting s := by
+        unfold Editor.setOptions at hst
+        dsimp only at hst
+        have h' := leaveIfEmpty_sel env hst
+        exact h'
+      rw [e1]; exact h3 s e2
+    exact revalidate_within env hw1 hq1 h
+  | setLayout l =>
+    simp only [Editor.apply] at h
+    have hw1 : Within B K (e.setLayout env l) := by
+      unfold Editor.setLayout
+      exact leaveIfEmpty_within env ⟨hw.cfg.keep ⟨rfl, rfl, rfl, rfl⟩, hw.len⟩
+    have hq1 : Quiet B (e.setLayout env l) := by
+      intro s hst
+      have e1 : (e.setLayout env l).shared.com = e.shared.com := by
+        unfold Editor.setLayout
+        rw [leaveIfEmpty_shared]
+      have e2 : e.state = .selecting s := by
+        unfold Editor.setLayout at hst
+        have h' := leaveIfEmpty_sel env hst
+        exact h'
+      rw [e1]; exact hs s e2
+    exact revalidate_within env hw1 hq1 h
+  | setEngine k =>
+    simp only [Editor.apply] at h
+    injection h with h; subst h
+    exact ⟨hw.cfg.keep ⟨rfl, rfl, rfl, rfl⟩, hw.len⟩
+  | learn k p =>
+    simp only [Editor.apply] at h
+    split at h
+    · next sh b hq =>
+      obtain ⟨hk, hc⟩ := keep_learnFrame ((C02.learnPhrase_frame env e.shared k p).elim hq)
+      refine revalidate_within env (e := { e with shared := sh }) ⟨hw.cfg.keep hk, ?_⟩ ?_ h
+      · show sh.com.len ≤ lenCap B e.state
+        rw [hc]; exact hw.len
+      · intro s hst
+        show sh.com.len ≤ B
+        rw [hc]; exact hs s hst
+    · cases h
+    · cases h
+  | unlearn k p =>
+    simp only [Editor.apply] at h
+    exact revalidate_within env (e := { e with shared := Shared.unlearnPhrase env e.shared k p })
+      ⟨hw.cfg.keep ⟨rfl, rfl, rfl, rfl⟩, hw.len⟩ (fun s hst => hs s hst) h
+  | jump which =>
+    simp only [Editor.apply] at h
+    obtain ⟨⟨e1, b⟩, h1, h2⟩ := map_ok h
+    subst h2
+    exact within_jump env hw h1
+
+/-- **the states inside a step**: where the auto-commit converts, the buffer holds at most `B + max 2 K` symbols
+    (and the configuration is the pre-state's) -/
+theorem mid_len {B K : Nat} (hn : NoFuzzy env) {e : Editor D L} (hw : Within B K e) {op : Op L} {sh : Shared D L}
+    (hm : Mid env e op sh) : Cfg B K sh ∧ sh.com.len ≤ B + max 2 K := by
+  have hlen := Nat.le_trans hw.len (lenCap_le B e.state)
+  cases op with
+  | key ev =>
+    obtain ⟨st, hd⟩ := hm
+    obtain ⟨hk, hl, hcase⟩ := dispatch_growth env hn hw hd
+    refine ⟨hw.cfg.keep hk, ?_⟩
+    rcases hcase with ⟨hst, _⟩ | hcase
+    · -- ends in `Entering`: only `Entering` itself adds more than one symbol, and there `len ≤ B`
+      by_cases hs : e.state = .entering
+      · have := hw.len; rw [hs] at this; simp only [lenCap] at this; omega
+      · -- from the other states at most one symbol is added
+        have h1 : sh.com.len ≤ e.shared.com.len + 1 := by
+          unfold dispatch at hd
+          split at hd
+          · next h => exact absurd h hs
+          · obtain ⟨⟨sh', t⟩, hr, hx⟩ := map_ok hd
+            dsimp only at hx
+            obtain ⟨_, h2, _⟩ := sstep_enteringSyllableNext env hn (preamble e.shared) (hw.cfg.keep (preamble_keep _).1).std ev sh' t hr
+            have ha := applyTrans_keep sh' .enteringSyllable t
+            have e1 : sh = (applyTrans sh' .enteringSyllable t).1 := by rw [hx]
+            rw [e1, ha.2]; exact h2
+          · next s _ =>
+            obtain ⟨x, hr, hx⟩ := map_ok hd
+            obtain ⟨_, h2, _⟩ := selstep_selectingNext env s (preamble e.shared) ev x hr
+            have ha := applyTrans_keep x.shared (.selecting x.sel) x.trans
+            have e1 : sh = (applyTrans x.shared (.selecting x.sel) x.trans).1 := by rw [hx]
+            rw [e1, ha.2]; exact h2
+          · next m _ =>
+            obtain ⟨⟨sh', m', t⟩, hr, hx⟩ := map_ok hd
+            dsimp only at hx
+            obtain ⟨_, h2, _⟩ := (highlighting_growth env m (preamble e.shared) ev).elim hr
+            have ha := applyTrans_keep sh' (.highlighting m') t
+            have e1 : sh = (applyTrans sh' (.highlighting m') t).1 := by rw [hx]
+            rw [e1, ha.2]
+            dsimp only at h2
+            rw [h2]; exact Nat.le_add_right _ _
+        omega
+    · have := lenCap_le B st; omega
+  | select n =>
+    obtain ⟨s, s', sh0, t, hs, hq, rfl⟩ := hm
+    obtain ⟨h1, h2, _⟩ := (select_growth env s e.shared n).elim hq
+    dsimp only at h1 h2
+    have ha := applyTrans_keep sh0 (.selecting s') t
+    refine ⟨hw.cfg.keep (h1.trans ha.1), ?_⟩
+    rw [ha.2]; omega
+  | startSelecting => exact hm.elim
+  | cancelSelecting => exact hm.elim
+  | commit => exact hm.elim
+  | clear => exact hm.elim
+  | ack => exact hm.elim
+  | clearSyl => exact hm.elim
+  | setOptions o => exact hm.elim
+  | setLayout l => exact hm.elim
+  | setEngine k => exact hm.elim
+  | learn k p => exact hm.elim
+  | unlearn k p => exact hm.elim
+  | jump w => exact hm.elim
+
+/-! ## histories -/
+
+/-- the side conditions along a history -/
+def SafeAlong (B : Nat) : Editor D L → List (Op L) → Prop
+  | _, [] => True
+  | e, op :: ops => SafeOp B e op ∧ ∀ e', e.apply env op = .ok e' → SafeAlong B e' ops
+
+/-- the auto-commit's own bound at every state inside the history where it runs -/
+def ACAlong : Editor D L → List (Op L) → Prop
+  | _, [] => True
+  | e, op :: ops => (∀ sh, Mid env e op sh → ACBound env sh) ∧ ∀ e', e.apply env op = .ok e' → ACAlong e' ops
+
+/-- **`Within` along every history** -/
+theorem within_run {B K : Nat} (hn : NoFuzzy env) (ops : List (Op L)) :
+    ∀ e e' : Editor D L, Within B K e → SafeAlong env B e ops → ACAlong env e ops → e.run env ops = .ok e' →
+      Within B K e' := by
+  induction ops with
+  | nil => intro e e' hw _ _ h; simp only [Editor.run] at h; cases h; exact hw
+  | cons op ops ih =>
+    intro e e' hw hs ha h
+    simp only [Editor.run] at h
+    split at h
+    · next e1 h1 =>
+      exact ih e1 e' (within_apply env hn hw op hs.1 ha.1 h1) (hs.2 e1 h1) (ha.2 e1 h1) h
+    · cases h
+    · cases h
+
+/-- a history of keys needs no side condition -/
+theorem safeAlong_keys (B : Nat) (keys : List KeyEvent) : ∀ e : Editor D L, SafeAlong env B e (keys.map .key) := by
+  induction keys with
+  | nil => intro e; trivial
+  | cons k ks ih => intro e; exact ⟨trivial, fun e' _ => ih e'⟩
+
 end Chewing.Bound
